@@ -1026,3 +1026,63 @@ pub fn main_dump(args: &[String]) -> i32 {
     }
     0
 }
+
+/// C11: bit tokens of the tessellations of (degenerate) lattice inputs, to be compared across
+/// big-integer backends.  Input: NDJSON of lattice inputs.  A panic is part of the token.
+pub fn main_tokens(args: &[String]) -> i32 {
+    let mut inputs_path = String::new();
+    let mut out_path = String::new();
+    let mut i = 0;
+    while i < args.len() {
+        match args[i].as_str() {
+            "--inputs" => { inputs_path = args[i + 1].clone(); i += 1 }
+            "--out" => { out_path = args[i + 1].clone(); i += 1 }
+            _ => {}
+        }
+        i += 1;
+    }
+    install_quiet_panic_hook();
+    let txt = std::fs::read_to_string(&inputs_path).unwrap();
+    let mut toks: Vec<Value> = vec![];
+    let mut exact_total = 0u64;
+    let mut runs_with_exact = 0usize;
+    let mut nonzero_exact = 0usize;
+    for line in txt.lines() {
+        if line.trim().is_empty() {
+            continue;
+        }
+        let inp = LInput::from_json(&serde_json::from_str::<Value>(line).unwrap());
+        let embs = vec![Embedding::new(1.0, [0.0; 3]), Embedding::new(0.1, [-17.25, 3.5, 0.7]), Embedding::new(7.3, [1000.0, -1000.0, 250.0]),
+                        Embedding::new(1.0 / 3.0, [1.0 / 7.0, 0.3, -0.9])];
+        for (ei, emb) in embs.iter().enumerate() {
+            verif::trace_take();
+            let gens = emb.generators(&inp);
+            let before = verif::exact_calls();
+            verif::trace_enable(true);
+            let r = guarded(|| Voronoi::build(&gens, emb.anchor(&inp), emb.width(&inp), inp.dimensionality(), inp.per));
+            verif::trace_enable(false);
+            let evs = verif::trace_take();
+            // how many exact decisions were non-zero (the sign-extraction code of the backend matters for those)
+            for (_, ev) in evs.iter() {
+                if let Event::ClipTest { exact: Some(x), .. } = ev {
+                    if *x != 0.0 {
+                        nonzero_exact += 1;
+                    }
+                }
+            }
+            let ec = verif::exact_calls() - before;
+            exact_total += ec;
+            if ec > 0 {
+                runs_with_exact += 1;
+            }
+            let tok = match r {
+                Ok(v) => crate::tess::dump_token(&v),
+                Err(m) => format!("PANIC:{}", m.split('@').next().unwrap_or("").trim()),
+            };
+            toks.push(json!({"id": inp.id, "emb": ei, "tok": tok, "exact_calls": ec}));
+        }
+    }
+    let result = json!({"tokens": toks, "exact_calls": exact_total, "runs_with_exact": runs_with_exact, "nonzero_exact_decisions": nonzero_exact});
+    std::fs::write(&out_path, serde_json::to_string(&result).unwrap()).unwrap();
+    0
+}
